@@ -20,7 +20,8 @@ import (
 // non-empty batch line exactly once (E4: both shipped binaries driven as subprocesses over an enumerated space).
 
 type c17Spec struct {
-	Kind string `json:"kind"` // lk | shape | boundary
+	Kind string `json:"kind"` // lk | shape | boundary | longline
+	Len  int    `json:"len,omitempty"` // longline: length of the one long line (bytes without the line end)
 	// lk: every node count 1..KMax for the line counts LFrom..LTo; ranges are executed by the simulator for L,K <= ExecMax
 	LFrom, LTo, KMax, ExecMax int
 	// shape: batch files given as sequences over {0: blank, 1: "x", 2: "xy"}, index range into the canonical list
@@ -91,6 +92,13 @@ func init() {
 					for from := 0; from < n; from += 40 {
 						out = append(out, c17Spec{Kind: "shape", ShapeFrom: from, ShapeTo: min(from+40, n), CRLF: crlf, FinalNL: fnl})
 					}
+				}
+			}
+			// one very long line (many arguments) among short ones: lengths around the 4 KiB and 8 KiB buffer sizes of the
+			// standard readers, and up to just below the 64 KiB line limit of the simulator's scanner
+			for _, crlf := range []bool{false, true} {
+				for _, n := range []int{4095, 4096, 4097, 6557, 8192, 8193, 20000, 65000} {
+					out = append(out, c17Spec{Kind: "longline", CRLF: crlf, Len: n})
 				}
 			}
 			for _, crlf := range []bool{false, true} {
@@ -334,6 +342,42 @@ func c17Run(raw json.RawMessage, c *mc.Ctx) {
 				c.State(h)
 				c.NonTrivial(h)
 				c17Judge(c, calc, sim, file, ne, k, c.Tier == "thorough" || (si+k+c.Seed)%4 == 0, fmt.Sprintf("file %q", content), cls)
+			}
+		}
+		c.Sample(sp)
+	case "longline":
+		eol := "\n"
+		cls := " LF long-line"
+		if sp.CRLF {
+			eol, cls = "\r\n", " CRLF long-line"
+		}
+		for pos := 1; pos <= 5; pos += 2 {
+			var b strings.Builder
+			for i := 1; i <= 5; i++ {
+				l := c17Line(i, false)
+				if i == pos {
+					// further arguments with keys the simulator does not know (they are ignored), up to the wanted length
+					for j := 0; len(l) < sp.Len; j++ {
+						a := fmt.Sprintf(" pad%05d=x", j)
+						if rem := sp.Len - len(l); len(a) > rem {
+							if rem < 4 {
+								a = strings.Repeat(" ", rem)
+							} else {
+								a = " " + strings.Repeat("y", rem-3) + "=z"
+							}
+						}
+						l += a
+					}
+				}
+				b.WriteString(l + eol)
+			}
+			content := []byte(b.String())
+			os.WriteFile(file, content, 0o644)
+			for _, k := range []int{1, 2, 5} {
+				h := mc.NewHasher().S("longline").I(sp.Len).I(pos).I(k).S(cls).Sum()
+				c.State(h)
+				c.NonTrivial(h)
+				c17Judge(c, calc, sim, file, 5, k, true, fmt.Sprintf("5 lines, line %d is %d bytes long", pos, sp.Len), cls)
 			}
 		}
 		c.Sample(sp)
